@@ -284,6 +284,23 @@ func c02Run(ctx *core.Ctx) {
 			ctx.Flag("modular-metadata")
 		}
 	}
+	// size sweeps: one dimension scaled through sizes up to 128, the direct assignment first, second, third, in the middle, last
+	for i, tm := range gen.SweepModelsJSON(sweepSizes(ctx)) {
+		if !ctx.Mine(1<<26 + i) {
+			continue
+		}
+		if ctx.Expired() {
+			ctx.Cap("wall-clock cap in the size sweeps")
+			break
+		}
+		ctx.Eval(1)
+		if strings.Contains(tm.Tag, "operands") {
+			c02One(ctx, tm.M)
+		} else {
+			c02Generic(ctx, tm.M)
+		}
+		ctx.Flag("c02:sweeps")
+	}
 	// identifier classes and parameter types through the JSON direction as well
 	if ctx.Shard == 0 {
 		for _, tm := range append(gen.NameModels(), gen.CondModels()...) {
@@ -321,7 +338,7 @@ func init() {
 		ID: "C02",
 		Rule: "all rewrite trees with <= 3 (quick) / <= 4 (thorough) leaves, operator depth <= 3, union/intersection with 1..3 children, exclusion, leaves {direct assignment, b, b from p} " +
 			"with the direct assignment in any position and multiplicity, x restriction lists (3 per tree thorough, 1 rotating quick; incl. restrictions on relations without direct assignment), " +
-			"each as protobuf and as JSON text; plus all identifier-class and parameter-type models and modular models (module / source-file attribution on types, relations, conditions; both option values). Oracle: reference predicate expressible(), reference normalise(). " +
+			"each as protobuf and as JSON text; plus the size sweeps (as in C01, and unions/intersections of 4..128 operands with the direct assignment first, second, third, in the middle, next to last and last); plus all identifier-class and parameter-type models and modular models (module / source-file attribution on types, relations, conditions; both option values). Oracle: reference predicate expressible(), reference normalise(). " +
 			"states = distinct round-tripped models, non-trivial = distinct rewrite trees (both verdicts)",
 		Assume: []string{
 			"a relation with a direct assignment has at least one type restriction (an empty [] is not DSL; degenerate protobufs are C08's domain)",
@@ -331,7 +348,7 @@ func init() {
 		Technique: "bounded exhaustive enumeration of rewrite trees against a reference predicate and normal form",
 		Run:       c02Run,
 		Finish: func(r *core.Result) error {
-			for _, f := range []string{"accepted", "rejected", "normalised-differs", "modular-metadata"} {
+			for _, f := range []string{"accepted", "rejected", "normalised-differs", "modular-metadata", "c02:sweeps"} {
 				if !r.Flags[f] {
 					return fmt.Errorf("C02: guard %q never exercised", f)
 				}
